@@ -141,6 +141,34 @@ def numeric_error_identity(ctx, quick):
         U2, S2, V2 = yastn.svd_with_truncation(a, axes=axes, D_total=ns + 3, tol=0, D_block=10 ** 6)
         if S2.size != sum(1 for x in S0._data if x > 0):
             ctx.violation('svd_with_truncation with non-binding limits discards values: %d of %d positive kept' % (S2.size, ns), dict(kind='svd-nonbinding', sym=sym, axes=axes))
+        # the wrappers forward EVERY limit to truncation_mask (the function the Coq model is tied to): kept values = mask of the full spectrum
+        def kept_sorted(Sx):
+            return sorted(np.real(Sx._data).tolist())
+        m0 = yastn.linalg.truncation_mask(S0, **opts)
+        want = kept_sorted(m0.apply_mask(S0, axes=0))
+        if not np.allclose(kept_sorted(S), want, rtol=1e-10, atol=1e-12) if len(want) == S.size else True:
+            ctx.violation('svd_with_truncation(%r) keeps %d values, truncation_mask on the full spectrum with the same limits keeps %d (sym %s)' % (opts, S.size, len(want), sym),
+                          dict(kind='svd-forwarding', sym=sym, axes=axes, opts=opts, seed_index=k))
+        if nl >= 1:
+            hp = yastn.tensordot(a, a.conj(), axes=(axes[1], axes[1]))
+            hlp = len(axes[0])
+            hp = hp.fuse_legs(axes=(tuple(range(hlp)), tuple(range(hlp, 2 * hlp))), mode='hard')
+            eopts = dict(tol=rng.choice([0, 1e-6, 1e-3, 0.05]), tol_block=rng.choice([0, 1e-3, 0.1, 0.5]))
+            if rng.random() < 0.5:
+                eopts['D_total'] = rng.randint(1, max(1, hp.get_shape(0)))
+            if rng.random() < 0.4:
+                eopts['D_block'] = rng.randint(1, 3)
+            try:
+                Sf, Uf = yastn.eigh(hp, axes=(0, 1))
+                Se, Ue = yastn.eigh_with_truncation(hp, axes=(0, 1), which='LR', **eopts)
+                me = yastn.linalg.truncation_mask(Sf, **eopts)
+                wante = kept_sorted(me.apply_mask(Sf, axes=0))
+                ctx.count('eigh_with_truncation:forwarding')
+                if len(wante) != Se.size or not np.allclose(kept_sorted(Se), wante, rtol=1e-9, atol=1e-10 * max(1.0, float(Sf.norm()))):
+                    ctx.violation('eigh_with_truncation(which=LR, %r) on a positive matrix keeps %d values, truncation_mask on its full spectrum with the same limits keeps %d (sym %s)' % (
+                        eopts, Se.size, len(wante), sym), dict(kind='eigh-forwarding', sym=sym, axes=axes, opts=eopts, seed_index=k))
+            except yastn.YastnError:
+                pass
         # eigh_with_truncation on a Hermitian (indefinite) matrix
         if nl >= 1:
             h = yastn.tensordot(a, a.conj(), axes=(axes[1], axes[1]))
